@@ -86,7 +86,7 @@ static void build_alphabet(void)
     if (g_c != CK_MANTIS)
         for (k = 1; k < B; ++k) {
             if (!thorough && !(k == 1 || k == 3 || k == 4 || k == 5 || k == B - 1 || k == B / 2)) continue;
-            lcg_fill(TWEAKS[g_ntweaks], 16, 200 + (uint32_t)k); TWLEN[g_ntweaks] = k; TWNULL[g_ntweaks++] = 0;
+            lcg_fill(TWEAKS[g_ntweaks], 16, (k & 1) ? 99 : 200 + (uint32_t)k); TWLEN[g_ntweaks] = k; TWNULL[g_ntweaks++] = 0;   /* (odd lengths: prefixes of the full-length tweak above) */
         }
     memset(TWEAKS[g_ntweaks], 0, 16); TWLEN[g_ntweaks] = B; TWNULL[g_ntweaks++] = 1;
     if (g_c != CK_MANTIS) { memset(TWEAKS[g_ntweaks], 0, 16); TWLEN[g_ntweaks] = 1; TWNULL[g_ntweaks++] = 1; }
